@@ -36,6 +36,17 @@ box vectors), because positions are hashed without being wrapped first:
   neighborlist:missing-pairs:skewed-c-vector-cutoff-above-third-of-c_z   (all atoms inside, reduced c vector has a y
                                      component, cutoff > c_z/3: three voxels along z, search range capped at nz/2 = 1)
   neighborlist:missing-pairs:atoms-inside-primary-cell:{ortho,triclinic}   (anything else)
+When pairs are missing and atoms lie outside the brick, the same atoms are moved into it by lattice vectors and that
+frame is judged as well (by its own references): clean there => the first key; still missing there => the key of the
+moved frame (plus the first key only if the original frame lost strictly more pairs).  The position class / reduced box
+are used for naming the mechanism and for generating inputs only, never for a verdict.
+
+Workload notes: compute_neighborlist allocates (b_y/0.6c)*(c_z/0.6c) voxel bins, so for that entry point the "tiny"
+cutoffs (1e-3 .. 3e-2 nm) are raised until the grid has at most MAXBINS bins (1e-3 is reached in the smallest cells
+only; compute_neighbors gets the tiny cutoffs unchanged).  One case in twenty is pinned to the regime where the voxel
+count along y or z switches from five to three (skewed cell, atoms inside the primary cell, cutoff 0.78..1.45 times
+b_y/3 or c_z/3).
+The thorough tier adds 3000-atom frames and 28x the cases.
 """
 from __future__ import annotations
 
@@ -53,11 +64,14 @@ RULE = ("cases = (entry point, cell class or no-cell or periodic=False, placemen
         "query/haystack subsets) from a seeded stream; a case is non-trivial when at least one pair/atom was decided "
         "against both references (compute_distances and the float64 minimum image); distinct = distinct descriptors")
 WORKERS = {"quick": 8, "thorough": 16}
-BUDGET = {"quick": 60, "thorough": 900}
+BUDGET = {"quick": 90, "thorough": 900}
 ENV = {"OMP_WAIT_POLICY": "PASSIVE"}
-FLOORS = {"quick": {"neighborlist.pairs": 200000, "neighborlist.structure": 100, "neighborlist.threads": 50,
-                    "neighbors.members": 5000, "neighbors.order": 100, "neighbors.structure": 100,
-                    "oracle.selfcheck": 20000}}
+FLOORS = {"quick": {"neighborlist.pairs": 4000000, "neighborlist.structure": 120, "neighborlist.threads": 150,
+                    "neighbors.members": 12000, "neighbors.order": 100, "neighbors.structure": 130,
+                    "oracle.selfcheck": 100000},
+          "thorough": {"neighborlist.pairs": 400000000, "neighborlist.structure": 4000, "neighborlist.threads": 6000,
+                       "neighbors.members": 500000, "neighbors.order": 4000, "neighbors.structure": 5000,
+                       "oracle.selfcheck": 4000000}}
 ASSUMPTIONS = [
     "haystack_indices are given without repetition (they denote a set of atoms); query_indices may repeat",
     "the cell widths of the domain condition are the perpendicular widths of traj.unitcell_vectors as reported",
@@ -65,14 +79,15 @@ ASSUMPTIONS = [
     "the band is skipped here (counted under 'references disagree')",
 ]
 
-NCASES = {"quick": 1080, "thorough": 30000}
+NCASES = {"quick": 840, "thorough": 24000}
 KINDS = ["nl", "nb", "nl", "nb", "nl", "nlt"]
 CELLS = common.CELL_KINDS + ["none", "nonperiodic"]
 PLACES = ["brick", "brick", "cell", "cluster", "voxel", "voxel", "faces", "shift1", "shift5"]
 CUTMODES = ["tiny", "frac", "frac", "frac", "big", "half", "third", "thirdyz", "over"]
+SKEWED = ["truncoct", "rhombdod", "rhombdod2", "triclinic"]
 TEAMS = [1, 2, 3, 5, 8, 16]
 DEFAULT_TEAM = 4
-MAXBINS = 4e6
+MAXBINS = 6.3e6
 
 
 # ------------------------------------------------------------------------------------------------ generation
@@ -96,8 +111,17 @@ def gen_cases(tier, seed):
         kind = KINDS[i % len(KINDS)]
         cell = CELLS[(i // len(KINDS)) % len(CELLS)]
         place = PLACES[int(rng.integers(len(PLACES)))]
+        cutmode = CUTMODES[int(rng.integers(len(CUTMODES)))]
+        natoms = _natoms(rng, tier, kind)
+        if i % 20 == 4:
+            # boundary regime of the voxel grid: skewed cell, every atom inside the primary cell, cutoff just above
+            # c_z/3 or b_y/3 (three voxels along that axis), enough atoms for pairs across the cell faces
+            kind, cell, place, cutmode = "nl", SKEWED[(i // 20) % len(SKEWED)], "brick", "thirdyz"
+            natoms = int(rng.integers(150, 500))
+            if (i // 20) % 2:  # flat skewed cell (b_y > 2.2 c_z, c_y != 0): many y voxels, three z voxels
+                cell, cutmode = "triclinic-flat", "thirdz"
         yield dict(i=i, seed=common.case_seed(seed, "C10", i), kind=kind, cell=cell, place=place,
-                   cutmode=CUTMODES[int(rng.integers(len(CUTMODES)))], n_atoms=_natoms(rng, tier, kind),
+                   cutmode=cutmode, n_atoms=natoms,
                    n_frames=int(rng.integers(1, 5)) if kind == "nb" else int(rng.integers(1, 4)),
                    perframe=bool(rng.random() < 0.4))
 
@@ -163,6 +187,18 @@ def _place(rng, place, na, B, cutoff, scale):
     return pos
 
 
+def _flat_cell(rng):
+    """a general triclinic cell whose reduced box is flat along z (b_y > 2.2 c_z) with a skewed c vector"""
+    best = None
+    for _ in range(300):
+        L, A = common.random_cell(rng, "triclinic")
+        Br = reduce_like_openmm(common.cell_vectors64(L, A))
+        best = (L, A)
+        if Br[1, 1] > 2.2 * Br[2, 2] and abs(Br[2, 1]) > 0.1 * Br[1, 1]:
+            break
+    return best
+
+
 def _build(case):
     import mdtraj as md
     rng = common.rng_for("C10case", case["seed"])
@@ -173,7 +209,10 @@ def _build(case):
     top = common.simple_topology(na)
     if has_cell:
         kind = None if cellkind == "nonperiodic" else cellkind
-        cells = [common.random_cell(rng, kind) for _ in range(nf if case["perframe"] else 1)]
+        if cellkind == "triclinic-flat":
+            cells = [_flat_cell(rng) for _ in range(nf if case["perframe"] else 1)]
+        else:
+            cells = [common.random_cell(rng, kind) for _ in range(nf if case["perframe"] else 1)]
         if not case["perframe"]:
             cells = cells * nf
         L = np.array([c[0] for c in cells], dtype=np.float32)
@@ -200,13 +239,13 @@ def _build(case):
         cutoff = half if rng.random() < 0.5 else half * (1 - 1e-6)
     elif mode == "third":
         cutoff = wmin / 3 * float(rng.uniform(0.97, 1.03))
-    elif mode == "thirdyz":  # just above a third of b_y or c_z: the voxel count along that axis drops to 3
+    elif mode in ("thirdyz", "thirdz"):  # around a third of b_y or c_z: the voxel count along that axis switches 5 -> 3
         if has_cell:
             Br = reduce_like_openmm(B[0])
-            ax = int(rng.integers(1, 3))
-            cutoff = min(half, float(Br[ax, ax]) / 3 * float(rng.uniform(1.0, 1.45)))
+            ax = int(rng.integers(1, 3)) if mode == "thirdyz" else 2
+            cutoff = min(half, float(Br[ax, ax]) / 3 * float(rng.uniform(0.78, 1.45)))
         else:
-            cutoff = wmin / 3 * float(rng.uniform(1.0, 1.45))
+            cutoff = wmin / 3 * float(rng.uniform(0.78, 1.45))
     else:  # over: outside the periodic domain; a legitimate cutoff without periodicity
         cutoff = half * float(rng.uniform(1.02, 2.5))
     if case["kind"] != "nb":
